@@ -912,8 +912,9 @@ class ArgumentParser(ParserDeprecations, ActionsContainer, ArgumentLinking, argp
                     fs, fs_path = fsspec.core.url_to_fs(path_sc.absolute)
                     if not overwrite and fs.isfile(fs_path):
                         raise ValueError(f"Refusing to overwrite existing file: {path_sc.absolute}")
+                    dump = self.dump(cfg, **dump_kwargs)  # type: ignore[arg-type]
                     with fsspec.open(path, "w") as f:
-                        f.write(self.dump(cfg, **dump_kwargs))  # type: ignore[arg-type]
+                        f.write(dump)
                     return
 
         path_fc = Path(path, mode="fc")
